@@ -5,8 +5,10 @@ package verifsim
 import (
 	"context"
 	"crypto/x509"
+	"crypto/tls"
 	"fmt"
 	"io"
+	"net/http"
 	"os"
 	"path/filepath"
 	"strings"
@@ -30,6 +32,16 @@ func init() {
 
 func genC20(r *Rng, tier string, idx int) *Plan {
 	p := &Plan{SchedSeed: r.U64()}
+	if idx%7 == 5 {
+		p.Mode = "concurrent-first-load"
+		p.Policy = r.Intn(2)
+		p.Spec = genSpec(r, genOpts{Filters: 1, NoDiscovery: true, NoFetch: true, ForceStore: "memory"})
+		p.Spec.IdPs[0].Scheme = "https"
+		p.Spec.Filters[0].CAFile = "ca.pem"
+		p.Spec.Filters[0].CARefresh = []string{"1s", "60s", "600s"}[r.Intn(3)]
+		p.Ops = []Op{{ID: 1, Kind: "loaders", D: r.Range(2, 4)}}
+		return p
+	}
 	if idx%7 == 6 {
 		p.Mode = "watcher-superseded"
 		p.Ops = []Op{{ID: 1, Kind: "interval", D: []int{1, 5, 60}[r.Intn(3)]}, {ID: 2, Kind: "rounds", D: r.Range(2, 6)}}
@@ -135,6 +147,9 @@ func rootsOf(content string) *x509.CertPool {
 func runC20(p *Plan) *Result {
 	if p.Mode == "watcher-superseded" {
 		return runC20Watcher(p)
+	}
+	if p.Mode == "concurrent-first-load" {
+		return runC20Concurrent(p)
 	}
 	f0 := &p.Spec.Filters[0]
 	spec := *p.Spec
@@ -496,5 +511,100 @@ func runC20Watcher(p *Plan) *Result {
 	res.TraceHash = hash64(fmt.Sprintf("w/%v/%d", interval, rounds))
 	res.SchedHash = res.TraceHash
 	res.SimSecs = float64(rounds)*interval.Seconds()/2 + 4*interval.Seconds()
+	return res
+}
+
+// ---- concurrent first loads of identical settings (instrumented tls.go / file.go) ---------------------------
+
+func runC20Concurrent(p *Plan) *Result {
+	spec := *p.Spec
+	spec.Filters = append([]FilterSpec(nil), p.Spec.Filters...)
+	caPath := filepath.Join(penv.dir, fmt.Sprintf("cca-%d.pem", os.Getpid()))
+	spec.Filters[0].CAFile = caPath
+	_ = os.WriteFile(caPath, []byte(pki.CAs[0].PEM), 0o600)
+	interval, _ := time.ParseDuration(spec.Filters[0].CARefresh)
+	w := NewWorld(&spec, p.SchedSeed, p.Policy, nil)
+	installHooks(w.Sim)
+	defer removeHooks()
+	w.StartNet(nil)
+	defer w.Close()
+	w.Boot()
+	if w.Rep.BootErr != nil {
+		r := w.result()
+		r.Infra = "generated configuration was rejected: " + w.Rep.BootErr.Error()
+		return r
+	}
+	idp := w.IdPs[0]
+	n := 2
+	if len(p.Ops) > 0 && p.Ops[0].D > 1 {
+		n = p.Ops[0].D
+	}
+	cfg := w.Filters[0].Cfg
+	clients := make([]*http.Client, n)
+	confs := make([]*tls.Config, n)
+	done := make(chan int, n)
+	main := w.Sim.Cur()
+	w.Sim.On = true
+	for i := 0; i < n; i++ {
+		i := i
+		t := w.Sim.NewTask(10+i, "loader")
+		w.Sim.Go(t, func() {
+			defer func() { done <- i }()
+			if i%2 == 0 {
+				// what every check does: a fresh client from the pool
+				c, err := inthttp.NewHTTPClient(cfg, w.Rep.tlsPool, nil)
+				if err == nil {
+					clients[i] = c
+					if tr, ok := c.Transport.(*http.Transport); ok {
+						confs[i] = tr.TLSClientConfig
+					}
+				}
+			} else {
+				confs[i], _ = w.Rep.tlsPool.LoadTLSConfig(cfg)
+			}
+		})
+	}
+	for i := 0; i < n; i++ {
+		<-done
+	}
+	w.Sim.On = false
+	w.Sim.SetCur(main)
+	w.probe("concurrent-first-loads")
+	distinct := map[*tls.Config]bool{}
+	for _, c := range confs {
+		if c != nil {
+			distinct[c] = true
+		}
+	}
+	if len(distinct) > 1 {
+		w.violate("C20", "identical-settings-do-not-share-one-configuration:concurrent-first-load", fmt.Sprintf("%d concurrent first loads of identical TLS settings were handed %d different configurations", n, len(distinct)))
+	}
+	// rotation: every configuration handed out must follow the CA file
+	w.Advance(500 * time.Millisecond)
+	_ = os.WriteFile(caPath+".tmp", []byte(pki.CAs[1].PEM), 0o600)
+	_ = os.Rename(caPath+".tmp", caPath)
+	idp.ServerCA = 1
+	w.Advance(interval + time.Second)
+	for i, c := range confs {
+		if c == nil {
+			continue
+		}
+		tr := &http.Transport{DialContext: simDial, TLSClientConfig: c}
+		resp, err := (&http.Client{Transport: tr}).Get(idp.JWKSURL())
+		if err == nil {
+			_, _ = io.Copy(io.Discard, resp.Body)
+			_ = resp.Body.Close()
+		}
+		tr.CloseIdleConnections()
+		w.probe("handshakes-after-a-rotation")
+		if err != nil {
+			w.violate("C20", "configuration-handed-out-earlier-does-not-follow-the-ca-file", fmt.Sprintf("configuration #%d (of %d distinct) still rejects a server chaining to the NEW CA content %v after the rewrite (refresh interval %v): %v", i, len(distinct), interval+time.Second, interval, err))
+			break
+		}
+	}
+	res := w.result().only("C20")
+	res.Nontrivial = true
+	res.TraceHash = hash64(w.Sim.TraceString())
+	res.Summary = fmt.Sprintf("mode=concurrent-first-load loaders=%d interval=%v", n, interval)
 	return res
 }
